@@ -103,6 +103,7 @@ MUTANTS = [
      "                        position_field[spu.VectorField.y_axis_idx()].min(),\n                        position_field[spu.VectorField.y_axis_idx()].min(),\n                    ]\n                )\n            case _:", ["C17"]),
     ("advection-3d-vector-y-advanced-twice", E3 + "advection_timestep_3d.py", "                    field=vector_field[z_axis_idx],", "                    field=vector_field[y_axis_idx],", ["C20", "C13", "C01"]),
     ("restart-max-over-strings", "sopht/utils/restart_sim.py", "iter_num = [int(filename.stem.split(\"_\")[-1]) for filename in Path.cwd().glob(\"sopht_*.h5\")]", "iter_num = [filename.stem.split(\"_\")[-1] for filename in Path.cwd().glob(\"sopht_*.h5\")]", ["C18"]),
+    ("grid-constructor-velocity-before-position", RIG, "        self.compute_lag_grid_position_field()\n        self.compute_lag_grid_velocity_field()", "        self.compute_lag_grid_velocity_field()\n        self.compute_lag_grid_position_field()", ["C09", "C18"]),
 ]
 
 # behaviour-preserving edits: every listed check must stay silent
@@ -143,6 +144,9 @@ CONTROLS = [
     ("rigid-wrapper-keyword-arguments", "sopht/simulator/immersed_body/rigid_body/rigid_body_flow_interaction.py", "            enable_eul_grid_forcing_reset,\n            num_threads,\n            start_time,\n            **forcing_grid_kwargs,\n        )",
      "            num_threads=num_threads,\n            enable_eul_grid_forcing_reset=enable_eul_grid_forcing_reset,\n            start_time=start_time,\n            **forcing_grid_kwargs,\n        )", ["C10"]),
     ("restart-max-with-int-key", "sopht/utils/restart_sim.py", "    latest = max(iter_num)", "    latest = int(max(iter_num, key=int))", ["C18"]),
+    ("restart-locals-renamed", "sopht/utils/restart_sim.py", '    # find latest saved data\n    iter_num = [int(filename.stem.split("_")[-1]) for filename in Path.cwd().glob("sopht_*.h5")]\n\n    if len(iter_num) == 0:\n        msg = "There is no file to load in the directory."\n        raise FileNotFoundError(msg)\n\n    latest = max(iter_num)\n    # load sopht data\n    curr_time = io.load(h5_file_name=f"sopht_{latest:04d}.h5")\n    rod_io.load(h5_file_name=f"rod_{latest:04d}.h5")\n    forcing_io.load(h5_file_name=f"forcing_grid_{latest:04d}.h5")\n    rod_time = ea.load_state(restart_simulator, restart_dir, True)\n\n    if curr_time != rod_time:\n        msg = "Simulation time of the flow is not matched with the Elastica, check your inputs!"\n        raise ValueError(msg)\n    logger.info("sopht_%04d.h5 has been loaded", latest)\n\n    return curr_time\n', '    # find newest saved data\n    indices = [int(filename.stem.split("_")[-1]) for filename in Path.cwd().glob("sopht_*.h5")]\n\n    if len(indices) == 0:\n        msg = "There is no file to load in the directory."\n        raise FileNotFoundError(msg)\n\n    newest = max(indices)\n    # load sopht data\n    flow_time = io.load(h5_file_name=f"sopht_{newest:04d}.h5")\n    rod_io.load(h5_file_name=f"rod_{newest:04d}.h5")\n    forcing_io.load(h5_file_name=f"forcing_grid_{newest:04d}.h5")\n    body_time = ea.load_state(restart_simulator, restart_dir, True)\n\n    if flow_time != body_time:\n        msg = "Simulation time of the flow is not matched with the Elastica, check your inputs!"\n        raise ValueError(msg)\n    logger.info("sopht_%04d.h5 has been loaded", newest)\n\n    return flow_time\n', ["C18"]),
+    ("statement-between-position-and-velocity-refresh", IBFI, "        self.forcing_grid.compute_lag_grid_position_field()\n        self.forcing_grid.compute_lag_grid_velocity_field()\n        self.compute_interaction_forcing(",
+     "        self.forcing_grid.compute_lag_grid_position_field()\n        num_markers = self.forcing_grid.num_lag_nodes\n        self.forcing_grid.compute_lag_grid_velocity_field()\n        self.compute_interaction_forcing(", ["C09", "C10", "C18"]),
 ]
 
 
